@@ -306,6 +306,20 @@ Definition strcpy_rproc_loom (v : renv -> rstate -> cstr) : M unit :=
                | None => RErr E_TRAP
                end.
 Definition set_rproc_clockid (v : renv -> rstate -> Z) : M unit := ret tt.
+Definition get_rproc_loomdir (sx : renv) (st : rstate) : cstr := Some [].
+Definition get_rproc_tmpdir (sx : renv) (st : rstate) : cstr := Some [].
+
+(* --- ovni_flush: the two flush events and the write of the buffer belong to the event-buffer model (unit rtbuf, C01);
+   on the metadata state they are the identity.  The local `struct ovni_ev` being built is an opaque cell. *)
+Definition ev_local := unit.
+Definition ev_local_zero : ev_local := tt.
+Definition ptr_ev := option unit.
+Definition ev_local_ref (e : ev_local) : ptr_ev := Some tt.
+Definition ovni_clock_now (sx : renv) (st : rstate) : Z := 0.
+Definition ovni_ev_set_clock (e : ptr_ev) (clock : Z) : M unit := ret tt.
+Definition ovni_ev_set_mcv (e : ptr_ev) (mcv : cstr) : M unit := ret tt.
+Definition flush_evbuf : M unit := ret tt.
+Definition ovni_ev_add (e : ptr_ev) : M unit := ret tt.
 Definition create_proc_dir (loom : cstr) (pid : Z) : M unit := ret tt.
 
 (* --- outside the metadata state *)
